@@ -202,7 +202,8 @@ def do_action(obj, root, a, emb, beh=None, env=None):
     """env: per-behaviour dict {refs: {step: payload}, step: n, oids}; returns extra fields to log"""
     op = a["op"]
     if op == "ref":
-        r = obj.getPayloadRef(*a["pt"])
+        sp = a.get("sp", -1)
+        r = obj.getPayloadRef(*a["pt"]) if sp == -1 else obj.getPayloadRef(*a["pt"], start_pos=(Payload(sp) if (sp + a["pt"][0]) % 2 else sp))
         if env is not None:
             env["refs"][env["step"]] = r
             return {"resid": env["oids"](r) if env.get("oids") else 0}
@@ -223,7 +224,8 @@ def do_action(obj, root, a, emb, beh=None, env=None):
         if a["mode"] == "dflt":
             kw = {"allocate": False, "default": 7}
         if a["sp"] != -1:
-            kw["start_pos"] = a["sp"]
+            # a saved position may be given as a plain int or boxed (what getSavedPos-style code passes around)
+            kw["start_pos"] = Payload(a["sp"]) if (a["sp"] + len(a["pt"]) + len(a["path"])) % 2 else a["sp"]
         res = tgt.getPayload(*a["pt"], **kw)
         if isinstance(res, Fiber):
             return {"res": proj.proj_fiber(res, None, env.get("oids") if env else None)}
@@ -232,7 +234,7 @@ def do_action(obj, root, a, emb, beh=None, env=None):
         return {"res": {"k": "X", "t": "returned-" + type(res).__name__}}
     if op in ("getpos", "getposref"):
         f = fiber_at(root, a["path"])
-        kw = {"start_pos": a["sp"]} if a["sp"] != -1 else {}
+        kw = {"start_pos": (Payload(a["sp"]) if (a["sp"] + a["c"]) % 2 else a["sp"])} if a["sp"] != -1 else {}
         res = f.getPosition(a["c"], **kw) if op == "getpos" else f.getPositionRef(a["c"], **kw)
         return {"res": -1 if res is None else int(res)}
     if op == "ref_":
